@@ -147,4 +147,61 @@ Proof.
   repeat split; apply calls_log; assumption.
 Qed.
 
+(* ---- [run_calls] (the list Avl/Check.v check_calls compares with the calls counted on the real
+   code) entry by entry: entry i is [op_calls] of op i in the state reached by the first i ops ---- *)
+Lemma run_fst_cons ts o (rest : list (op (A:=A))) :
+  fst (run eqb cmp ts (o :: rest)) = fst (run eqb cmp (fst (step eqb cmp ts o)) rest).
+Proof.
+  cbn [run]. destruct (step eqb cmp ts o) as [ts' x]. cbn [fst].
+  destruct (run eqb cmp ts' rest). reflexivity.
+Qed.
+
+Lemma run_calls_snoc ops : forall ts o,
+  run_calls eqb cmp ts (ops ++ [o]) =
+  run_calls eqb cmp ts ops ++ [op_calls eqb cmp (fst (run eqb cmp ts ops)) o].
+Proof.
+  induction ops as [|a ops IH]; intros ts o; cbn [app run_calls].
+  - reflexivity.
+  - rewrite IH, run_fst_cons. reflexivity.
+Qed.
+
+Lemma run_calls_nth ops : forall ts i,
+  nth_error (run_calls eqb cmp ts ops) i =
+  option_map (op_calls eqb cmp (fst (run eqb cmp ts (firstn i ops)))) (nth_error ops i).
+Proof.
+  induction ops as [|a ops IH]; intros ts [|i]; cbn [run_calls nth_error firstn option_map]; try reflexivity.
+  rewrite IH, run_fst_cons. reflexivity.
+Qed.
+
+Lemma op_calls_le ts o k :
+  op_calls eqb cmp ts o = Some k ->
+  exists h (T : Tree (A:=A)), nth_error ts h = Some T /\ (k <= levels (root T))%nat.
+Proof.
+  destruct o as [h v|h v|h v|h|h|h|h|h|h]; cbn [op_calls]; try discriminate;
+    (destruct (nth_error ts h) as [T|] eqn:En; cbn [option_map]; [|discriminate]);
+    intros [= <-]; exists h, T; (split; [exact En|]);
+    try (destruct (Tree_calls_le T v) as (H1 & H2 & H3); assumption); lia.
+Qed.
+
+(* EVERY entry of the list the correspondence check compares: if entry i of run_calls of a
+   history is Some k, then op i exists, it ran on some handle h holding a tree t in the state
+   after the first i ops, and k <= height t + 1 and k <= 1.4405*log2(Len t + 2) *)
+Theorem history_run_calls ops i k :
+  nth_error (run_calls eqb cmp [empty_Tree] ops) i = Some (Some k) ->
+  exists o h (T : Tree (A:=A)),
+    nth_error ops i = Some o /\
+    op_calls eqb cmp (fst (run_history eqb cmp (firstn i ops))) o = Some k /\
+    nth_error (fst (run_history eqb cmp (firstn i ops))) h = Some T /\
+    Z.of_nat k <= height (root T) + 1 /\
+    2 ^ (10000 * Z.of_nat k) <= (Tree_Len T + 2) ^ 14405.
+Proof.
+  rewrite run_calls_nth. destruct (nth_error ops i) as [o|]; cbn [option_map]; [|discriminate].
+  intros [= Hc]. fold (run_history eqb cmp (firstn i ops)) in Hc.
+  destruct (op_calls_le _ _ _ Hc) as (h & T & Hn & Hk).
+  destruct (history_inv eqb cmp (firstn i ops) h T Hn) as [[Ha _] Hs].
+  exists o, h, T. split; [reflexivity|]. split; [exact Hc|]. split; [exact Hn|].
+  rewrite height_levels. split; [lia|].
+  unfold Tree_Len. rewrite Hs. apply calls_log; assumption.
+Qed.
+
 End CostProofs.
